@@ -207,6 +207,17 @@ def der_check(x, acc, part):
                     mm = ref_members(x, m[2], m[3])
                     if mm[0] == "bad":
                         bad = "inner-" + mm[1]
+            if bad is None and top[0] != "bad":
+                base = name.split("[")[0]
+                a, b = top[2], top[3]
+                if constructed == "explicit":
+                    m = ref_tlv(x, top[2], top[3])
+                    a, b = (m[2], m[3]) if m[0] != "bad" else (0, 0)
+                c = x[a:b]
+                if base == "DerObjectId" and c and c[-1] & 0x80:
+                    bad = "truncated-last-oid-arc"        # the final octet of an arc has bit 8 clear: the content stops inside an arc
+                elif base == "DerInteger" and strict and len(c) >= 2 and ((c[0] == 0 and c[1] < 0x80) or (c[0] == 0xFF and c[1] >= 0x80)):
+                    bad = "nonminimal-integer-content"    # strict=True promises DER: X.690 8.3.2, both the 00 and the FF padding
             acc.seen("classes", (part, name, strict, bad or "wellformed", res))
             if res == "accept" and bad:
                 acc.violation("C13/der-strict/%s/accepts-%s" % (name, bad),
@@ -289,6 +300,7 @@ ALPHA8 = bytes.fromhex("00010230808182ff")
 def der_short_shards(quick):
     sh = [("all2", b) for b in range(256)]
     sh.append(("all01", 0))
+    sh.append(("content",))
     for a in ALPHA16:
         sh.append(("a16", 3, a))
         sh.append(("a16", 4, a))
@@ -313,10 +325,22 @@ def der_short_shards(quick):
     return sh
 
 
+CONTENT7 = bytes.fromhex("00012a7f8081ff")
+
+
 def der_short_worker(shards):
     acc = Acc()
     for sh in shards:
-        if sh[0] == "all01":
+        if sh[0] == "content":
+            # INTEGER and OBJECT IDENTIFIER contents of 1..4 octets over the 7-symbol alphabet (sign / continuation bit boundaries),
+            # plain and under an explicit tag
+            for n in range(1, 5):
+                for t in itertools.product(CONTENT7, repeat=n):
+                    for tag in (0x02, 0x06):
+                        tlv = bytes((tag, n) + t)
+                        der_check(tlv, acc, "short")
+                        der_check(bytes((0xA0, n + 2)) + tlv, acc, "short")
+        elif sh[0] == "all01":
             der_check(b"", acc, "short")
             for b in range(256):
                 der_check(bytes([b]), acc, "short")
@@ -1868,6 +1892,15 @@ def crafted_worker(_):
             c[i] = v
             key_case("DSA", "openssl-field%d=%s" % (i, v if abs(v) < 3 else "huge"),
                      asn1.DerSequence(c).encode(), None, acc, kind="mut")
+    # X.509-shaped inputs whose TBSCertificate has an explicit version and too few members (the importers index into it)
+    S = lambda *a: asn1.DerSequence(list(a)).encode()
+    for ver in (0, 1, 2, 3):
+        for members in range(0, 12):
+            tbs = S(*([asn1.DerInteger(ver, explicit=0).encode()] + [S()] * members))
+            for tail in ((S(), asn1.DerBitString(b"x").encode()), (S(),), ()):
+                cert = S(tbs, *tail)
+                for tname in ("RSA", "DSA", "ECC"):
+                    key_case(tname, "certificate-shaped/version%d/%d-members/%d-tail" % (ver, members, len(tail)), cert, None, acc, kind="mut")
     # OID swaps inside PKCS#8 / SPKI
     oids = ["1.2.840.113549.1.1.1", "1.2.840.113549.1.1.10", "1.2.840.10040.4.1", "1.2.840.10045.2.1",
             "1.3.101.112", "1.3.101.113", "1.3.101.110", "1.3.101.111", "1.2.3.4", "2.999.1"]
